@@ -97,13 +97,13 @@ theorem hdrLenOf_upd (h : H) (fl dl : Int) : hdrLenOf { h with filelength := fl,
   cases h.container <;> simp only []
   exact wavHdrLen_congr _ _ rfl rfl rfl
 
-/-- `xxx_write_header` on a read/write handle: only the two length fields of the handle and the header region of the
-    store change; the position is restored -/
-theorem RwView.writeHeader {h : H} {s : Store} {R W F : Nat} {hdr D : List Byte} (v : RwView h s R W F hdr D)
-    (cl : Bool) :
+/-- `xxx_write_header` on a store `hdr ++ D` positioned at or after the header: only the two length fields of the
+    handle and the header region of the store change; the position is restored -/
+theorem writeHeader_shape (h : H) (s : Store) (cl : Bool) (hdr D : List Byte) (hb : s.bytes = hdr ++ D)
+    (hl : hdr.length = hdrLenOf h) (hdo : h.dataoffset = (hdrLenOf h : Nat)) (hp : hdrLenOf h ≤ s.pos) :
     ∃ fl dl hdr', Sf.writeHeader h s cl = ({ h with filelength := fl, datalength := dl }, { bytes := hdr' ++ D, pos := s.pos }) ∧
       hdr'.length = hdrLenOf h := by
-  have h2 := writeHeader_snd h s cl hdr D v.bytes v.hlen v.doff v.posGe
+  have h2 := writeHeader_snd h s cl hdr D hb hl hdo hp
   have h1 := writeHeader_fst_cw h s cl
   refine ⟨(recalc h s.bytes.length cl).filelength, (recalc h s.bytes.length cl).datalength,
     hdrOf (recalc h s.bytes.length cl), ?_, by rw [hdrOf_length, recalc_hdrLen]⟩
@@ -111,13 +111,19 @@ theorem RwView.writeHeader {h : H} {s : Store} {R W F : Nat} {hdr D : List Byte}
   refine ⟨?_, h2⟩
   rw [h1]
   have hd : (recalc h s.bytes.length cl).dataoffset = h.dataoffset := by
-    rw [recalc_dataoffset, v.doff]
+    rw [recalc_dataoffset, hdo]
     unfold hdrLenOf
     cases h.container <;> simp
   -- `recalc` touches exactly three fields
   unfold recalc at hd ⊢
   cases hc : h.container <;> cases cl <;> simp only [hc] at hd ⊢ <;> (try simp_all) <;>
     (ext <;> simp_all)
+
+theorem RwView.writeHeader {h : H} {s : Store} {R W F : Nat} {hdr D : List Byte} (v : RwView h s R W F hdr D)
+    (cl : Bool) :
+    ∃ fl dl hdr', Sf.writeHeader h s cl = ({ h with filelength := fl, datalength := dl }, { bytes := hdr' ++ D, pos := s.pos }) ∧
+      hdr'.length = hdrLenOf h :=
+  writeHeader_shape h s cl hdr D v.bytes v.hlen v.doff v.posGe
 
 /-- the view survives any change of the handle fields it does not read and any store with the same data section,
     header length and position -/
